@@ -1,0 +1,20 @@
+//go:build verif
+
+// Contracts for the deductive verifier in /verif (govc). Comment-only: with the
+// verif tag off the compiler never sees this file, with it on it adds no code.
+package interp
+
+// ---- C30: Reset clause. Reset assigns a whole new Runner value; every field is classified:
+// config (kept), orig (construction-time values saved on the first Reset), restored (from orig),
+// zero (absent from the literal), emptied (container reused only after being emptied),
+// derived (recomputed after the whole reset). A new field without a class is a failing obligation. ----
+
+//@ func Runner.Reset
+//@ nosafety
+//@ props C30
+//@ fields config: Env tempDir callHandler execHandler openHandler readDirHandler statHandler accessHandler usedNew
+//@ fields orig: origDir origParams origOpts origStdin origStdout origStderr
+//@ fields restored: Dir Params opts stdin stdout stderr
+//@ fields emptied: Vars dirStack bgProcs
+//@ fields derived: writeEnv didReset
+//@ fields zero: Funcs alias execMiddlewares ecfg ectx filename breakEnclosing contnEnclosing inLoop inFunc inSource handlingTrap sourceSetParams noErrExit exit lastExit lastExpandExit dirBootstrap optState keepRedirs callbackErr callbackExit
